@@ -16,6 +16,7 @@ META = {
 def obligations(tier: str) -> list[Ob]:
     q = tier == "quick"
     return [
+        Ob("replay_loaders", "vlib.replay_checks:loaders", {"known_key": "replay_loaders"}, timeout_s=900, engine="replay", cpus=1),
         harness_ob(
             "exit_relation", "C06_exit.py", tier, funcs=["exit_relation_3"] + ([] if q else ["exit_relation_5"]), timeout=60 if q else 300, cpus=2,
             encoded=["openapi_python_client.cli:handle_errors"],
